@@ -70,14 +70,17 @@ def switches : List (String × (Dev → Dev)) :=
     ("C21-F3", fun d => { d with nullKeyEmptyAccDropped := true }),
     ("C21-F5", fun d => { d with denseRefusesNullKeys := true }),
     ("C21-F6", fun d => { d with rawSumNoSeenBit := true }),
-    ("C21-F9", fun d => { d with scalarMinMaxSentinel := true }) ]
+    -- C21-F9 (scalarMinMaxSentinel) was repaired in /repo by 988d68a: no longer an attribution target
+    ("C21-F10", fun d => { d with qualifiedSumIntNull := true }) ]
 
 /-- non-empty sublists, smallest first -/
 def subsets {α} : List α → List (List α)
   | [] => [[]]
   | x :: xs => let r := subsets xs; r ++ r.map (x :: ·)
-def switchSets : List (List (String × (Dev → Dev))) :=
-  ((subsets switches).filter (fun s => !s.isEmpty)).mergeSort (fun a b => a.length ≤ b.length)
+/-- `pqQualified`: the statement runs over Parquet and spells a column `t0.x` (the only situation F10 applies to) -/
+def switchSets (pqQualified : Bool) : List (List (String × (Dev → Dev))) :=
+  let sw := switches.filter fun s => pqQualified || s.1 != "C21-F10"
+  ((subsets sw).filter (fun s => !s.isEmpty && s.length ≤ 3)).mergeSort (fun a b => a.length ≤ b.length)
 
 def sameOutcome (o : Outcome) (msg : String) (m : Except Err Table) : Bool :=
   match o, m with
@@ -93,6 +96,12 @@ def sigMinMaxI32 (c : Case) (o : Outcome) (msg : String) : Bool :=
     aggs.any (fun a => a.fn == .min || a.fn == .max) &&
       ((msg.splitOn "with type Int32 not supported").length > 1 || (msg.splitOn "not implemented for type Int32").length > 1)
   | _, _ => false
+
+/-- dense-direct SUM over a BIGINT column named with a qualified column fails "expected Float64" (C21-F10) -/
+def sigDenseF64 (o : Outcome) (msg : String) : Bool :=
+  match o with
+  | .err _ => decide ((msg.splitOn "dense agg: expected Float64").length > 1)
+  | _ => false
 
 /-- key values of the input rows of a grouped / DISTINCT statement -/
 def inputKeys (c : Case) : Except Err (List Row × Nat) :=
@@ -120,9 +129,23 @@ def neutralTables (c : Case) (cat : Json) : List Table :=
     (t0.map fun r => r.mapIdx fun i v => if (i == 1 || i == 2) && v.isNull then fresh (tyAt i) else v) :: rest
   | [] => []
 
+/-- is every aggregate value of this output row "empty" (NULL, or a COUNT of 0)?  `nk` = number of key columns -/
+def emptyAggRow (nk : Nat) (r : Row) : Bool := (r.drop nk).all fun v => v.isNull || v == .int 0
+
+/-- Signature of "groups whose accumulators all stayed empty are dropped" (C21-F3; occupancy of a perfect-hash slot is
+    inferred from the key values / the accumulators, morsel_agg.rs `slot_has_data`, merge and rehash): every row the
+    implementation returned is a row of the reference answer, and every missing row carries only empty aggregates. -/
+def sigEmptyAccDropped (nk : Nat) (out ref : Table) : Bool :=
+  let rest := out.foldl (fun acc r => Spec.removeFirst r acc) ref
+  out.length + rest.length == ref.length && !rest.isEmpty && rest.all (emptyAggRow nk)
+
+def acceptableOn (tables : List Table) (c : Case) (out : Table) : Bool :=
+  match Spec.acceptable fo fns tables c.plan out with | .ok true => true | _ => false
+
 /-- Signature + neutraliser attribution (DESIGN §3.4) of the NULL-grouping-key findings of the perfect-hash / raw-key
     aggregation state (src/physical/morsel_agg.rs): the case is grouped, some input row has a NULL key component, and the
-    engine answers the neutralised twin (NULL keys replaced by a fresh value) correctly.  Which finding:
+    engine answers the neutralised twin (NULL keys replaced by a fresh value) correctly — or wrongly only by the
+    empty-accumulator signature above.  Which finding:
       F4  ≥ 2 keys and a row whose keys are ALL NULL (the slot of an all-NULL composite key counts as free: rows lost);
       F8  an integer / date key column holds both NULL and -1 (raw key u64::MAX = -1);
       F3  otherwise (NULL-key group dropped / split). -/
@@ -131,9 +154,12 @@ def sigNullKeys (c : Case) (o : Outcome) (neutral : Option Outcome) (cat : Json)
   | .ok _, some (.ok nout), .ok (ks, _) =>
     let hasNull := ks.any keyHasNull
     let nt := neutralTables c cat
-    let nOk := match Spec.acceptable fo fns nt c.plan nout with | .ok true => true | _ => false
-    if !(hasNull && nOk) then none else
     let nk := (ks.head?.map (·.length)).getD 0
+    let nOk := acceptableOn nt c nout ||
+      (match Spec.run fo fns nt c.plan [] [] with
+       | .ok nref => sigEmptyAccDropped nk nout (normTable nref)
+       | .error _ => false)
+    if !(hasNull && nOk) then none else
     if nk ≥ 2 && ks.any keyAllNull then some "C21-F4"
     else if (List.range nk).any (fun j =>
         ks.any (fun k => (k.getD j .null).isNull) &&
@@ -141,17 +167,25 @@ def sigNullKeys (c : Case) (o : Outcome) (neutral : Option Outcome) (cat : Json)
     else some "C21-F3"
   | _, _, _ => none
 
-def attrC21 (path : Path) (xty : Ty) (msg : String) (neutral : Option Outcome) (cat : Json) : AttrFn := fun c o _ =>
+def attrC21 (path : Path) (xty : Ty) (msg : String) (neutral : Option Outcome) (cat : Json) (pqQualified : Bool) : AttrFn :=
+  fun c o spec =>
   -- the model with all switches off must itself be a correct answer
   let okOff : Bool := match modelRun {} path xty c with
-    | .ok t => (match Spec.acceptable fo fns c.tables c.plan (normTable t) with | .ok true => true | _ => false)
+    | .ok t => acceptableOn c.tables c (normTable t)
     | .error _ => false
   if !okOff then none else
-  match switchSets.find? (fun s => sameOutcome o msg (modelRun (s.foldl (fun d sw => sw.2 d) {}) path xty c)) with
+  match (switchSets pqQualified).find? (fun s => sameOutcome o msg (modelRun (s.foldl (fun d sw => sw.2 d) {}) path xty c)) with
   | some (sw :: _) => some sw.1
   | _ =>
     if sigMinMaxI32 c o msg then some "C21-F7"
-    else sigNullKeys c o neutral cat
+    else if pqQualified && sigDenseF64 o msg then some "C21-F10"
+    else match sigNullKeys c o neutral cat with
+    | some f => some f
+    | none =>
+      match o, spec, inputKeys c with
+      | .ok out, .ok ref, .ok (ks, _) =>
+        if sigEmptyAccDropped ((ks.head?.map (·.length)).getD 0) out ref then some "C21-F3" else none
+      | _, _, _ => none
 
 def handler : Driver.Handler := fun cj i => do
   let msg := (i.getObjValAs? String "msg").toOption.getD ""
@@ -165,7 +199,10 @@ def handler : Driver.Handler := fun cj i => do
   let cat := (cj.getObjVal? "cat").toOption.getD Json.null
   -- engine errors on these plain aggregate statements are failures of the property
   let cj := cj.setObjVal! "strict_err" (Json.bool true)
-  let v ← handlerWith (attrC21 path xty msg neutral cat) cj i
+  let cfgS := (cj.getObjValAs? String "cfg").toOption.getD ""
+  let sqlS := (cj.getObjValAs? String "sql").toOption.getD ""
+  let pqQualified := cfgS.startsWith "pq" && (sqlS.splitOn "t0.").length > 1
+  let v ← handlerWith (attrC21 path xty msg neutral cat pqQualified) cj i
   let c ← caseOfJson cj
   let o ← outcomeOfJson i
   let m := modelRun {} path xty c
